@@ -60,3 +60,57 @@ def used_before(c, doc, ctx=None, other_ctx=None):
         del it
     except Exception:  # noqa: BLE001
         pass
+
+
+def interned(v, pool=None):
+    """a copy of a JSON value in which structurally equal containers (compared type-strictly) are ONE Python object, the way
+    a caller builds a document from shared pieces (`[row] * 2`, one list used under two members)"""
+    pool = {} if pool is None else pool
+    if isinstance(v, dict):
+        out = {k: interned(x, pool) for k, x in v.items()}
+    elif isinstance(v, list):
+        out = [interned(x, pool) for x in v]
+    else:
+        return v
+    return pool.setdefault(repr(SX.canon(out)), out)
+
+
+def entry_points(text, doc, ctx=None, reference=None):
+    """the same query through every way the library offers to evaluate it - module-level functions (default environment),
+    a fresh environment, compiled objects, findall / finditer / match / query, the asynchronous twins - on the document and
+    on a copy whose equal parts are shared objects: all must give what `compile(text).finditer(doc)` gives.
+    Returns "same" or the routes that differ."""
+    kw = {"filter_context": deep(ctx)} if ctx is not None else {}
+
+    def values(f):
+        try:
+            return ["ok", [SX.canon(v) for v in f()]]
+        except Exception as e:  # noqa: BLE001
+            return ["err", exc_name(e)]
+    ref = reference if reference is not None else values(lambda: [m.obj for m in jsonpath.compile(text).finditer(deep(doc), **kw)])
+    env = jsonpath.JSONPathEnvironment()
+    routes = {
+        "jsonpath.findall": lambda: jsonpath.findall(text, deep(doc), **kw),
+        "jsonpath.finditer": lambda: [m.obj for m in jsonpath.finditer(text, deep(doc), **kw)],
+        "jsonpath.query": lambda: list(jsonpath.query(text, deep(doc), **kw).values()),
+        "env.findall": lambda: env.findall(text, deep(doc), **kw),
+        "env.finditer": lambda: [m.obj for m in env.finditer(text, deep(doc), **kw)],
+        "env.compile.findall": lambda: env.compile(text).findall(deep(doc), **kw),
+        "findall_async": lambda: asyncio.run(jsonpath.findall_async(text, deep(doc), **kw)),
+        "shared-parts document": lambda: jsonpath.compile(text).findall(interned(deep(doc)), **kw),
+        "shared-parts document, fresh environment": lambda: env.findall(text, interned(deep(doc)), **kw),
+    }
+    diff = {}
+    for name, f in routes.items():
+        got = values(f)
+        if got != ref:
+            diff[name] = got
+    try:
+        m = jsonpath.match(text, deep(doc), **kw)
+        first = ["ok", [SX.canon(m.obj)] if m is not None else []]
+    except Exception as e:  # noqa: BLE001
+        first = ["err", exc_name(e)]
+    want_first = ["ok", ref[1][:1]] if ref[0] == "ok" else ref
+    if first != want_first:
+        diff["jsonpath.match"] = first
+    return "same" if not diff else {"reference": ref, "differ": diff}
